@@ -1,22 +1,26 @@
-import PMV.Lemmas.GatherCat
+import PMV.Lemmas.GatherMask
+/-
+  The code-shaped `unshrink` (every branch except the cached one), with derivatives:
+  what it returns at a position the antimask selects is what the shrunken object holds at the
+  rank of that position on its last axis.  Core Lean only.
+-/
 namespace PMV.Shrink
 open PMV
 set_option linter.unusedSectionVars false
 variable {K : Type} [Inhabited K]
 
-theorem cellB_congr (x y : Q K) (h1 : x.obj = y.obj) (h2 : x.derivs = y.derivs) (j : Index) :
-    x.cellB j = y.cellB j := by
-  simp only [Q.cellB, Q.cellAt, h1, h2]
+/-- elements agree observationally when the arrays agree exactly and the derivative arrays
+    agree observationally -/
+theorem same_of_parts (x y : Q K) (i j : Index) (h0 : x.obj.dcellAt i = y.obj.dcellAt j)
+    (hd : ∀ k, (derivAt x.derivs k i).obs = (derivAt y.derivs k j).obs) :
+    Cell.Same (x.cellAt i) (y.cellAt j) := by
+  rw [cellAt_eq, cellAt_eq, h0]
+  exact ⟨rfl, fun _ => ⟨rfl, hd⟩⟩
 
-theorem anyOver_of_mem {s : Shape} {p : Index → Bool} {i : Index} (hi : Valid s i) (hp : p i = true) :
-    anyOver s p = true := by
-  simp only [anyOver, List.any_eq_true]
-  exact ⟨i, valid_mem_indices _ _ hi, hp⟩
-
-theorem allOver_at {s : Shape} {p : Index → Bool} (h : allOver s p = true) {i : Index} (hi : Valid s i) :
-    p i = true := by
-  simp only [allOver, List.all_eq_true] at h
-  exact h i (valid_mem_indices _ _ hi)
+theorem same_main_obs {a b : Cell K} (h : Cell.Same a b) :
+    (⟨a.v, a.m⟩ : DCell K).obs = (⟨b.v, b.m⟩ : DCell K).obs := by
+  rw [dcell_obs_iff]
+  exact ⟨h.1, fun hm => (h.2 hm).1⟩
 
 theorem cacheDrop_obj (cfg : Cfg) (x : Q K) : (cacheDrop cfg x).obj = x.obj := by
   unfold cacheDrop; split <;> rfl
@@ -25,97 +29,176 @@ theorem cacheDrop_derivs (cfg : Cfg) (x : Q K) : (cacheDrop cfg x).derivs = x.de
 theorem cacheDrop_cls (cfg : Cfg) (x : Q K) : (cacheDrop cfg x).cls = x.cls := by
   unfold cacheDrop; split <;> rfl
 
-/-- every element of an all-masked object is masked, read at any valid grid index -/
-theorem allMasked_cellB (y : Q K) (h : y.obj.allMasked = true) (G : Shape) (hfit : bcast y.obj.shape G = some G)
-    (j : Index) (hj : Valid G j) : (y.cellB j).m = true := by
-  simp only [Q.cellB, Q.cellAt, Obj.maskAt]
-  unfold Obj.allMasked at h
-  cases hr : y.obj.rep <;> simp only [hr] at h ⊢
-  · cases h
-  · exact allOver_at h (valid_bidx _ _ _ hfit hj)
-
-theorem maskedSingle_bto_masked (df : Dflt K) (y u : Q K) (sh : Shape) (h : (y.maskedSingle df).bto sh = some u)
-    (j : Index) : (u.cellB j).m = true := by
-  unfold Q.bto at h
-  split at h
-  · cases h; rfl
-  · split at h
-    · next o ds ho hds =>
-      cases h
-      simp only [Q.maskedSingle, Obj.bto, singleObj] at ho
-      by_cases e1 : sh = []
-      · simp only [e1, ↓reduceIte, Option.some.injEq] at ho; subst ho; rfl
-      · simp only [e1, ↓reduceIte] at ho
-        by_cases e2 : bcast [] sh = some sh
-        · simp only [e2, ↓reduceIte, Option.some.injEq] at ho; subst ho; rfl
-        · simp [e2] at ho
-    · cases h
-
-theorem scatter_cellB (dv : K) (am : Arr Bool) (y : Q K) (bp : Shape)
-    (hs : y.obj.shape = bp ++ [count am]) (hder : y.derivs = []) (p a : Index) (ha : a ∈ trues am) :
-    Cell.Same ((⟨y.cls, scatterObj dv am y.obj, [], true, .none⟩ : Q K).cellB (p ++ a))
-      (y.cellB (p ++ [rnk am a])) := by
-  have hk := rnk_lt ha
-  have hl := trues_length ha
-  have hval := (mem_trues ha).1
-  simp only [Q.cellB, hs, bidx_singleton _ _ _ _ hk]
-  simp only [scatterObj, npScatter, hs, List.dropLast_concat]
-  rw [bidx_append _ _ _ _ hl, bidx_valid _ _ hval]
-  simp only [Q.cellAt, hder, lookupD, Obj.maskAt, List.length_append, hl, Nat.add_sub_cancel,
-    List.drop_left', List.take_left', (mem_trues ha).2]
-  exact Cell.Same.refl _
+theorem maskedSingle_bto_masked (df : Dflt K) (y u : Q K) (sh : Shape)
+    (h : (y.maskedSingle df).bto sh = some u) (j : Index) : (u.cellB j).m = true := by
+  obtain ⟨_, _, _, _, _, hc⟩ := Q.bto_spec _ _ _ (maskedSingle_wf df y) h
+  rw [hc j]; rfl
 
 theorem shape_snoc (s : Shape) (n : Nat) (hs : s ≠ []) (hl : s.getLastD 0 = n) : s = s.dropLast ++ [n] := by
   rcases List.eq_nil_or_concat s with h | ⟨s', b, rfl⟩
   · exact absurd h hs
   · simp at hl; subst hl; simp
 
-/-- what `unshrink` returns, at a position the antimask selects, is what the shrunken object
-    holds at the rank of that position on its last axis (every branch except the cached one) -/
-theorem unshrink_spec (df : Dflt K) (cfg : Cfg) (am : Arr Bool) (sh : Shape) (y u : Q K)
-    (hdis : cfg.disable = false) (hder : y.derivs = [])
-    (hback : ∀ o ds, cacheLookup cfg y.back ≠ .to o ds)
-    (h : unshrink df cfg (.arr am) sh y = some u)
-    (G' : Shape) (hfit : bcast y.obj.shape G' = some G') :
+/-- the cached back-pointer is not used (absent, ignored, or the cache is disabled) -/
+def NoCachedPath (cfg : Cfg) (b : Back K) : Prop := ∀ o ds, cacheLookup cfg b ≠ .to o ds
+
+/-- "the cached back-pointer is current": if `unshrink` finds an un-shrunken object in the cache,
+    its arrays (and those of its derivatives, which have its shape) hold, at every position the
+    antimask selects, what the shrunken object holds at the rank of that position.  This is what
+    `shrink` establishes when it stores the entry and what C18's invariant preserves as long as
+    the source is not modified afterwards. -/
+def BackCurrent (cfg : Cfg) (am : Arr Bool) (G' : Shape) (y : Q K) : Prop :=
+  ∀ o ds, cacheLookup cfg y.back = .to o ds →
+    (∀ k d, lookupD ds k = some d → d.shape = o.shape) ∧
+    ∀ p a, a ∈ trues am → Valid G' (p ++ [rnk am a]) →
+      Cell.Same (pcellAt o ds (bidx o.shape (p ++ a))) (y.cellB (p ++ [rnk am a]))
+
+theorem backCurrent_of_noCachedPath (cfg : Cfg) (am : Arr Bool) (G' : Shape) (y : Q K)
+    (h : NoCachedPath cfg y.back) : BackCurrent cfg am G' y :=
+  fun o ds e => absurd e (h o ds)
+
+theorem scatter_dcell (dv : K) (am : Arr Bool) (o : Obj K) (bp : Shape) (hs : o.shape = bp ++ [count am])
+    (q a : Index) (ha : a ∈ trues am) :
+    (scatterObj dv am o).dcellAt (q ++ a) = o.dcellAt (q ++ [rnk am a]) := by
+  have hl := trues_length ha
+  simp only [scatterObj, npScatter, Obj.dcellAt, Obj.maskAt, List.length_append, hl,
+    Nat.add_sub_cancel, List.drop_left', List.take_left', (mem_trues ha).2]
+
+/-- `unshrink`, generically in the function used for the derivatives -/
+theorem unshrinkG_spec (df : Dflt K) (recur : DObj K → Option (DObj K)) (cfg : Cfg) (am : Arr Bool)
+    (sh : Shape) (y u : Q K) (G' : Shape)
+    (hdis : cfg.disable = false) (hwf : y.WF) (hcur : BackCurrent cfg am G' y)
+    (hfit : bcast y.obj.shape G' = some G')
+    (hrec : NoCachedPath cfg y.back → y.obj.shape ≠ [] →
+      ∀ k d d', lookupD y.derivs k = some d → recur d = some d' →
+      ∀ p a, a ∈ trues am → Valid G' (p ++ [rnk am a]) →
+        (d'.obj.dcellAt (bidx d'.obj.shape (p ++ a))).obs
+          = (d.obj.dcellAt (bidx d.obj.shape (p ++ [rnk am a]))).obs)
+    (h : unshrinkG df recur cfg (.arr am) sh y = some u) :
     ∀ p a, a ∈ trues am → Valid G' (p ++ [rnk am a]) →
       Cell.Same (u.cellB (p ++ a)) (y.cellB (p ++ [rnk am a])) := by
   intro p a ha hv
-  simp only [unshrink, unshrinkG, hdis, Bool.false_eq_true, ↓reduceIte] at h
+  simp only [unshrinkG, hdis, Bool.false_eq_true, ↓reduceIte] at h
   have e1 := cacheDrop_obj cfg y
   have e2 := cacheDrop_derivs cfg y
-  have e3 := cacheDrop_cls cfg y
-  generalize cacheDrop cfg y = y0 at h e1 e2 e3
-  generalize cacheLookup cfg y.back = ub at h hback
-  rw [← cellB_congr y0 y e1 e2]
+  generalize cacheDrop cfg y = y0 at h e1 e2
+  unfold BackCurrent at hcur
+  unfold NoCachedPath at hrec
+  generalize cacheLookup cfg y.back = ub at h hcur hrec
   have hany : (AM.arr am).any = true := anyOver_of_mem (mem_trues ha).1 (mem_trues ha).2
   simp only [hany, Bool.not_true, Bool.false_or] at h
   split at h
   · next hall =>
+    rw [← cellB_congr y0 y e1 e2]
     exact Cell.Same.of_masked (maskedSingle_bto_masked df y0 u sh h _)
       (allMasked_cellB y0 hall G' (e1 ▸ hfit) _ hv)
   · split at h
     · next hs =>
+      rw [← cellB_congr y0 y e1 e2]
       cases h
       simp only [Q.cellB, hs, bidx, List.reverse_nil, bidxRev_nil_left]
       exact Cell.Same.refl _
     · next hs =>
+      by_cases hto : ∃ o ds, ub = Back.to o ds
+      · -- the cached path: `_masked_outside(unshrunk, antimask)`
+        obtain ⟨o, ds, rfl⟩ := hto
+        obtain ⟨hw, hsame⟩ := hcur o ds rfl
+        cases hmo : maskedOutside o ds (.arr am) <;> simp only [hmo, Option.map_none, Option.map_some] at h
+        · cases h
+        · next r =>
+          obtain ⟨o', ds'⟩ := r
+          cases h
+          simp only [Q.cellB, cellAt_withArrays]
+          show Cell.Same (pcellAt o' ds' (bidx o'.shape (p ++ a))) _
+          rw [(maskedOutside_spec o ds am o' ds' hw hmo).2 p a ha]
+          exact hsame p a ha hv
+      have hnc : ∀ o ds, ub ≠ Back.to o ds := fun o ds e => hto ⟨o, ds, e⟩
+      rw [← cellB_congr y0 y e1 e2]
+      have hrec := hrec hnc (e1 ▸ hs)
       have fin : (if y0.obj.shape.getLastD 0 ≠ count am then none
-          else match mapM' (fun (p : String × DObj K) =>
-              match unshrinkD df cfg (AM.arr am) sh p.2 with
-              | some d => (insertDeriv (scatterObj (df.of y0.cls) am y0.obj).shape d).map fun d' => (p.1, d')
-              | none => none) y0.derivs with
+          else match mapDerivs (fun (d : DObj K) => (recur d).bind
+              (insertDeriv (scatterObj (df.of y0.cls) am y0.obj).shape)) y0.derivs with
             | none => none
             | some ds => some ⟨y0.cls, scatterObj (df.of y0.cls) am y0.obj, ds, true, .none⟩) = some u := by
         cases ub with
         | none => exact h
         | self => exact h
-        | to o ds => exact absurd rfl (hback o ds)
+        | to o ds => exact absurd rfl (hnc o ds)
       split at fin
       · cases fin
       · next hl =>
-        simp only [e2, hder, mapM'] at fin
-        cases fin
         have hl' : y0.obj.shape.getLastD 0 = count am := by simpa using hl
-        exact scatter_cellB _ am y0 _ (shape_snoc _ _ hs hl') (e2.trans hder) p a ha
+        have hshape := shape_snoc _ _ hs hl'
+        generalize hbp : y0.obj.shape.dropLast = bp at hshape
+        cases hmd : mapDerivs (fun (d : DObj K) => (recur d).bind
+            (insertDeriv (scatterObj (df.of y0.cls) am y0.obj).shape)) y0.derivs <;>
+          simp only [hmd] at fin
+        · cases fin
+        · next ds =>
+          cases fin
+          have hk := rnk_lt ha
+          have hla := trues_length ha
+          have hval := (mem_trues ha).1
+          have hush : (scatterObj (df.of y0.cls) am y0.obj).shape = bp ++ am.shape := by
+            simp [scatterObj, npScatter, hbp]
+          have hi : bidx (bp ++ am.shape) (p ++ a) = bidx bp p ++ a := by
+            rw [bidx_append _ _ _ _ hla, bidx_valid _ _ hval]
+          have hi' : bidx (bp ++ [count am]) (p ++ [rnk am a]) = bidx bp p ++ [rnk am a] :=
+            bidx_singleton _ _ _ _ hk
+          simp only [Q.cellB, hush, hi]
+          rw [hshape, hi']
+          apply same_of_parts
+          · exact scatter_dcell _ am y0.obj bp hshape _ a ha
+          · intro k
+            simp only [derivAt]
+            cases hx : lookupD y0.derivs k with
+            | none => rw [lookupD_mapDerivs_none _ _ _ hmd k hx]
+            | some d0 =>
+              obtain ⟨d2, hg, hl2⟩ := lookupD_mapDerivs_some _ _ _ hmd k d0 hx
+              rw [hl2]
+              cases hr : recur d0 <;> simp only [hr, Option.bind_none, Option.bind_some] at hg
+              · cases hg
+              · next d' =>
+                have hd0 : d0.obj.shape = bp ++ [count am] := by
+                  rw [← hshape, e1]; exact hwf k d0 (e2 ▸ hx)
+                have := hrec k d0 d' (e2 ▸ hx) hr p a ha hv
+                rw [hd0, hi'] at this
+                rw [← this, ← hi, ← hush]
+                exact congrArg DCell.obs ((insertDeriv_spec _ _ _ hg).2 (p ++ a))
+
+/-- `deriv.unshrink(antimask, shape)` -/
+theorem unshrinkD_spec (df : Dflt K) (cfg : Cfg) (am : Arr Bool) (sh : Shape) (d d' : DObj K) (G' : Shape)
+    (hdis : cfg.disable = false) (hcur : BackCurrent cfg am G' d.toQ)
+    (hfit : bcast d.obj.shape G' = some G')
+    (h : unshrinkD df cfg (.arr am) sh d = some d') :
+    ∀ p a, a ∈ trues am → Valid G' (p ++ [rnk am a]) →
+      (d'.obj.dcellAt (bidx d'.obj.shape (p ++ a))).obs
+        = (d.obj.dcellAt (bidx d.obj.shape (p ++ [rnk am a]))).obs := by
+  intro p a ha hv
+  unfold unshrinkD at h
+  cases hu : unshrinkG df (fun _ => none) cfg (.arr am) sh d.toQ <;>
+    simp only [hu, Option.map_none, Option.map_some] at h
+  · cases h
+  · next u =>
+    cases h
+    have := unshrinkG_spec df (fun _ => none) cfg am sh d.toQ u G' hdis
+      (by intro k d0 hk; simp [DObj.toQ, lookupD] at hk) hcur hfit
+      (by intro _ _ k d0 d1 hk; simp [DObj.toQ, lookupD] at hk) hu p a ha hv
+    exact same_main_obs this
+
+/-- `Qube.unshrink` with derivatives, every branch: the all-masked stand-in, shapeless objects,
+    the cached path (under `BackCurrent`) and the scatter with its derivative recursion -/
+theorem unshrink_spec (df : Dflt K) (cfg : Cfg) (am : Arr Bool) (sh : Shape) (y u : Q K) (G' : Shape)
+    (hdis : cfg.disable = false) (hwf : y.WF) (hcur : BackCurrent cfg am G' y)
+    (hcurd : NoCachedPath cfg y.back → y.obj.shape ≠ [] →
+      ∀ k d, lookupD y.derivs k = some d → BackCurrent cfg am G' d.toQ)
+    (hfit : bcast y.obj.shape G' = some G')
+    (h : unshrink df cfg (.arr am) sh y = some u) :
+    ∀ p a, a ∈ trues am → Valid G' (p ++ [rnk am a]) →
+      Cell.Same (u.cellB (p ++ a)) (y.cellB (p ++ [rnk am a])) := by
+  refine unshrinkG_spec df _ cfg am sh y u G' hdis hwf hcur hfit ?_ h
+  intro hn hs k d d' hk hr
+  exact unshrinkD_spec df cfg am sh d d' G' hdis (hcurd hn hs k d hk)
+    (by rw [hwf k d hk]; exact hfit) hr
 
 end PMV.Shrink
